@@ -31,8 +31,12 @@ Definition check_eca (c : Z * Z * list Z * list Z * ((nat*nat)*(nat*nat)*(nat*na
 """
 
 
+TRANSLATORS = [('py_eventsync_facts', 'EventSyncK')]
+
+
 def theorems(ctx):
     ctx.modelled += MODELLED
+    ctx.generate(TRANSLATORS)
     ctx.theorems()
     if ctx.tier == "thorough":
         ctx.coqchk()
